@@ -54,6 +54,10 @@ class Prop:
         """coarse label of the branch a case exercised (for the measured distribution)"""
         return op + ":" + out.split(" ", 1)[0][:24]
 
+    def complete(self, op, args):
+        """recompute arguments that are derived from others (called on shrunk cases; default: none are)"""
+        return args
+
 
 def load_prop(pid) -> Prop:
     core.use_repo()
@@ -280,6 +284,7 @@ class Run:
 
         def bad(a):
             try:
+                a = p.complete(op, a)
                 return p.real(op, a) != drv.ask("\t".join([op, *a]))
             except Exception:
                 return False
@@ -290,7 +295,7 @@ class Run:
             def sb(x, i=i):
                 return bad(args[:i] + [core.enc(x)] + args[i + 1 :])
             args[i] = core.enc(shrink_str(s, sb, max_steps=150))
-        return args
+        return p.complete(op, args)
 
     # 5: laws on the real code
     def laws(self, n):
